@@ -55,6 +55,14 @@ theorem fixed_signatures :
     cmdSig (-1) (-1) [115, 101, 99, 116, 105, 111, 110] = (1, 1) ∧
     cmdSig (-1) (-1) [108, 97, 98, 101, 108] = (1, 0) := by decide
 
+/-- C08/C16: the side condition "the mandatory arguments of `\\def`, `\\textbf`, `\\section` and `\\label` are
+brace-delimited" names ALL commands with a mandatory argument: no other name of the table has one (a bare token
+after any other command is never turned into a made-up `{..}` argument). The generated table is sorted by name. -/
+theorem mandatory_argument_commands :
+    (Tables.signatures.filter (fun e => decide (0 < e.2.1))).map (·.1) =
+      [[100, 101, 102], [108, 97, 98, 101, 108], [115, 101, 99, 116, 105, 111, 110], [116, 101, 120, 116, 98, 102]] := by
+  decide
+
 /-- C09: names outside the table have the open signature; in particular a starred name is not
 its base name (`\section*` takes every group that follows). -/
 theorem starred_names_are_open :
